@@ -143,6 +143,8 @@ type episode struct {
 	peak    atomic.Int64
 }
 
+var noIDFlip atomic.Int64
+
 func jobID(key int) string { return fmt.Sprintf("id-%d", key) }
 
 func (ep *episode) outcome(key int) string {
@@ -184,6 +186,13 @@ func (ep *episode) wfBodyC(j Job[int], cons int) (int, error) {
 	ep.g.point("wf.exit", "job", key, "out", out, "status", st)
 	switch out {
 	case "panic":
+		// the panic value is a string, an error or a struct, by job key: every kind must become the job's error
+		switch key % 3 {
+		case 0:
+			panic(fmt.Errorf("p%d", key))
+		case 1:
+			panic(struct{ S string }{fmt.Sprintf("p%d", key)})
+		}
 		panic(fmt.Sprintf("p%d", key))
 	case "err":
 		return 0, errFor(key)
@@ -249,6 +258,10 @@ func workerConfigs(c cfgSpec, ep *episode) []any {
 
 func jobCfg(id string) []JobConfigFunc {
 	if id == "" {
+		// no ID chosen (the worker has a generator): alternately no option at all and the no-op option WithJobId("")
+		if noIDFlip.Add(1)%2 == 0 {
+			return []JobConfigFunc{WithJobId("")}
+		}
 		return nil
 	}
 	return []JobConfigFunc{WithJobId(id)}
@@ -526,6 +539,7 @@ func (ep *episode) exec(o opSpec) []any {
 		items := make([]Item[int], len(o.Items))
 		for i, it := range o.Items {
 			items[i] = Item[int]{ID: jobID(it.Job), Data: it.Job, Priority: it.Prio}
+
 		}
 		b := hq.addAll(items)
 		ep.mu.Lock()
